@@ -175,7 +175,8 @@ def check_persistence(it, fn, a):
 def cases_persistence(tier):
     out = []
     rng = random.Random(9)
-    pool = [["-u", "john #1"], ["--org", "ACME ;2"], ["--appid", "A #B ;C"], ["--url", "https://bank.example/ofx#frag ;x"], ["-u", "a = b"], ["-u", "[sect]"], ["--org", "x: y"],
+    pool = [["-C", "1234 5678"], ["-c", "4111 1111 1111 1111", "-c", "5500"], ["-S", "A 1", "-S", "B  2"], ["-i", "IRA 77"],
+            ["-u", "john #1"], ["--org", "ACME ;2"], ["--appid", "A #B ;C"], ["--url", "https://bank.example/ofx#frag ;x"], ["-u", "a = b"], ["-u", "[sect]"], ["--org", "x: y"],
             ["--nonewfileuid"], ["--skipprofile"], ["--unclosedelements", "--version", "102"], ["--useragent", "agent/1 (x; y)"], ["--language", "FRA"], ["--appver", "0100"],
             ["--url", "https://bank.example/ofx"], ["--url", "https://bank.example/ofx?a=b&c=d"], ["--url", "https://bank.example/ofx?x=%20y"], ["-u", "100%user"], ["--version", "203"], ["--version", "102"], ["--version", "220"],
             ["--pretty"], ["--org", "ORG"], ["--fid", "77"], ["--bankid", "B1"], ["--brokerid", "br.example"],
